@@ -20,6 +20,12 @@
    Transparent coins as inputs (checks/c08_coins.py, Coins.tla / Trace_Coins.tla / MC_Shield.tla): propose_shielding must
    select exactly the eligible coins of the source addresses, coin-funded propose_transfer only eligible coins of
    the account, created shielding transactions spend exactly the proposal's coins; coin locks.
+   Multi-step proposals, "in EVERY step" (checks/c08_multistep.py, MultiStep.tla / MC_MultiStep.tla / Trace_MultiStep.tla):
+   propose_transfer to ZIP 320 TEX recipients answers with a two-step proposal (wallet funds -> ephemeral transparent output
+   -> TEX recipient); every step of every such proposal must balance, refer correctly to the earlier step's output, select
+   only eligible notes / coins (the same Eligible / EligibleCoin definitions), none twice across steps, and never pay a TEX
+   recipient out of shielded notes; both created transactions are read back (the second spends exactly the ephemeral
+   outpoint of the first and pays the requested TEX script and amount).
 3. The proposal validators (Step::from_parts, Proposal::multi_step / single_step, the protobuf decode path) are
    bound directly (checks/c08_validators.py, spec/Wallet/ProposalValid.tla): TLC enumerates valid and invalid
    step lists with the set of violated rules; verdict and error class of the real validators must agree.
@@ -31,6 +37,7 @@ from . import lib
 from . import c01
 from . import c08_validators
 from . import c08_coins
+from . import c08_multistep
 
 AREA = "Wallet"
 
@@ -143,14 +150,21 @@ def run(ctx):
     # coin-funded propose_transfer relationally, create_proposed_transactions, coin locks (Coins.tla / Trace_Coins.tla)
     if not ctx.violations:
         ctx.extra["coin_proposal_stats"] = c08_coins.run_part(ctx)
+    # multi-step proposals (ZIP 320 pairs produced by the real selector): every step judged, both created transactions read back
+    mstats = {}
+    if not ctx.violations:
+        mstats = c08_multistep.run_part(ctx)
     lib.mc_evidence(
         ctx,
         rule="seeded random wallet histories (as C01) interleaved with propose_transfer calls under 4 confirmation policies, "
              "8 amount classes relative to the balance, lock requests and 3 locked-input policies, and direct lock/unlock/clear "
              "calls, on the real SQLite wallet; distinct_nontrivial = notes selected by successful proposals, each judged "
-             "eligible by the specification from the logged history",
-        evaluations=tot.get("proposals", 0), distinct_nontrivial=tot.get("inputs_judged", 0),
-        assumptions=["relational: which eligible notes are chosen and refusals (InsufficientFunds, ScanRequired) are not judged",
+             "eligible by the specification from the logged history (incl. the notes and coins selected by the steps of the "
+             "multi-step part's proposals, see multistep_rule)",
+        evaluations=tot.get("proposals", 0) + mstats.get("requests", 0),
+        distinct_nontrivial=tot.get("inputs_judged", 0) + mstats.get("notes_selected", 0) + mstats.get("coins_selected", 0),
+        extra={"multistep_rule": c08_multistep.RULE},
+        assumptions=c08_multistep.ASSUMPTIONS + ["relational: which eligible notes are chosen and refusals (InsufficientFunds, ScanRequired) are not judged",
                      "confirmations are required to be at least the weaker of the policy's two counts",
                      "proposal validators (Step::from_parts / Proposal::multi_step / single_step / protobuf decode) are bound by "
                      "ProposalValid.tla: every TLC-enumerated case (valid and invalid step lists) is replayed on the real "
@@ -167,6 +181,8 @@ def replay(ctx, path):
         return c08_validators.replay_part(ctx, rep)
     if rep.get("kind") == c08_coins.KIND:
         return c08_coins.replay_part(ctx, rep)
+    if rep.get("kind") == c08_multistep.KIND:
+        return c08_multistep.replay_part(ctx, rep)
     tp = ctx.path("replay_trace.ndjson")
     with open(tp, "w") as f:
         for e in rep["history"]:
@@ -209,3 +225,4 @@ def selftest(ctx):
     lib.log("selftest ok: duplicated input and unbalanced step rejected at their event")
     c08_validators.selftest_part(ctx)
     c08_coins.selftest_part(ctx)
+    c08_multistep.selftest_part(ctx)
